@@ -442,41 +442,6 @@ func specEq(a, b *cont) bool {
 	}
 }
 
-func elemZeroPair(fam byte, a, b elem) bool {
-	switch fam {
-	case 'c':
-		return zeroPair(a.p, b.p)
-	case 'o':
-		for i := range a.fs {
-			if i < len(b.fs) && zeroPair(a.fs[i], b.fs[i]) {
-				return true
-			}
-		}
-	}
-	return false
-}
-
-// hasZeroPair: some aligned position (or common key) holds a +0/−0 pair — finding F15's input class
-func hasZeroPair(a, b *cont) bool {
-	switch a.shape {
-	case "map", "mapp":
-		for i, k := range a.keys {
-			for j, k2 := range b.keys {
-				if string(k) == string(k2) && elemZeroPair(a.fam, a.elems[i], b.elems[j]) {
-					return true
-				}
-			}
-		}
-		return false
-	}
-	for i := range a.elems {
-		if i < len(b.elems) && elemZeroPair(a.fam, a.elems[i], b.elems[i]) {
-			return true
-		}
-	}
-	return false
-}
-
 func elemHasNaN(fam byte, e elem) bool {
 	if fam == 'c' {
 		return e.p.isNaN()
